@@ -66,8 +66,21 @@ fn inputs<CS: BbsCiphersuite>(seed: u32, u: usize, m: usize) -> Inputs<CS> {
     let key = KeySpec { fixture: false, ikm: BSpec { len: 32, class: 0, seed }, key_info: OptBytes::None, key_dst: OptBytes::None };
     let kp = keypair::<CS>(&key).unwrap();
     let l = u + 1;
-    let msgs: Vec<Vec<u8>> = (0..l).map(|i| format!("msg-{}-{}", i, splitmix(&mut st)).into_bytes()).collect();
-    let cm: Vec<Vec<u8>> = (0..m).map(|i| format!("cm-{}-{}", i, splitmix(&mut st)).into_bytes()).collect();
+    let mut msgs: Vec<Vec<u8>> = (0..l).map(|i| format!("msg-{}-{}", i, splitmix(&mut st)).into_bytes()).collect();
+    let mut cm: Vec<Vec<u8>> = (0..m).map(|i| format!("cm-{}-{}", i, splitmix(&mut st)).into_bytes()).collect();
+    // odd seeds: equal values at two hidden positions, and a committed message equal to a signer message
+    // (blinding must be independent of the CONTENT of what it hides)
+    if seed % 2 == 1 {
+        if l >= 3 {
+            msgs[l - 1] = msgs[1].clone();
+        }
+        if m >= 2 {
+            cm[m - 1] = cm[0].clone();
+        }
+        if m >= 1 && l >= 2 {
+            cm[0] = msgs[1].clone();
+        }
+    }
     let header = b"hdr".to_vec();
     let ph = b"ph".to_vec();
     let sig = Signature::<BBSplus<CS>>::sign(Some(&msgs), kp.private_key(), kp.public_key(), Some(&header)).unwrap().to_bytes();
